@@ -27,7 +27,8 @@ PROP = dict(
           "offset+size wraps, a get_line on an unterminated last line, or a sub-reader taken from a sub-reader whose window does not start at the "
           "first byte of the original data; distinct by (constructor, accessor(s), n, offset, size) for pos and by case "
           "encoding (hash) for the others."),
-    assumptions=["StringWriter::pput offsets are <= 4160 or >= 2^63: offsets in between would really allocate up to 2^63 bytes, which ASan's operator new answers by aborting (an artefact of the sanitizer build, not of phosg); the design's lower limit 2^62 was raised to 2^63 because std::string::max_size() is 2^63-1 here",
+    assumptions=["go(offset) and a constructor offset beyond the data may park the cursor there or clamp it to the end; after a sequential BufferWriter write that did not fit, later sequential writes may be refused as well (counted)",
+                 "StringWriter::pput offsets are <= 4160 or >= 2^63: offsets in between would really allocate up to 2^63 bytes, which ASan's operator new answers by aborting (an artefact of the sanitizer build, not of phosg); the design's lower limit 2^62 was raised to 2^63 because std::string::max_size() is 2^63-1 here",
                  "BitReader reads are unchecked by design: only the extent (size) and content of bit sub-readers is checked",
                  "get<T>(advance, size) / pget<T>(offset, size) are called with size >= sizeof(T) only",
                  "destination buffers handed to the clamping read/pread(void*, size) are `size` bytes large (the caller owns what it announces; sizes above 1 MiB are not passed to these two forms - counted as excluded - offsets are unrestricted), what the call leaves in the part it does not fill is not judged; those handed to readx/preadx(void*) and the source handed to pwrite/write/skip_if hold min(size, n+1) bytes when the request is out of range (a correct implementation validates before copying)",
